@@ -68,3 +68,15 @@ def sig_inline(n):
     if n.startswith("ruma_signatures::functions::") and "<" not in n[len("ruma_signatures::functions::"):]:
         return n.rsplit("::", 1)[-1] not in SIG_ANCHORS
     return n in ("ruma_signatures::signatures::Signature::as_bytes",)
+
+
+VIEW_RE = re.compile(r"^(?:\w+::)*(?:as_bytes|as_str|as_ref|as_slice|deref|borrow|into|from|clone|to_owned)\((.*)\)$")
+
+
+def strip_views(txt):
+    """Remove value-preserving view / conversion wrappers around a shown expression (`String::as_bytes(x)`, `Deref::deref(x)`, `Into::into(x)`)."""
+    while True:
+        m = VIEW_RE.match(txt)
+        if not m:
+            return txt
+        txt = m.group(1)
